@@ -1,6 +1,6 @@
 From Coq Require Import ZArith List Bool Lia.
 Import ListNotations.
-From KD Require Import C18.Model C18.Spec.
+From KD Require Import C18.Model C18.Spec C18.Check.
 Open Scope Z_scope.
 
 Notation loop := (loop_gen true true).
@@ -229,10 +229,10 @@ Qed.
 
 Lemma collate_col_rows : forall col f, collate_col col = Some f -> rows_of f = length col.
 Proof.
-  intros col f H. unfold collate_col in H. destruct col as [|[z|s] col']; [discriminate| |].
-  - destruct (map_opt get_scalar (FScalar z :: col')) eqn:E; [|discriminate]. inversion H; subst.
+  intros col f H. unfold collate_col in H. destruct col as [|[d z|d tr s] col']; [discriminate| |].
+  - destruct (map_opt (get_scalar d) (FScalar d z :: col')) eqn:E; [|discriminate]. inversion H; subst.
     simpl. apply map_opt_length in E. exact E.
-  - destruct (map_opt get_seq (FSeq s :: col')) eqn:E; [|discriminate].
+  - destruct (map_opt (get_seq d tr) (FSeq d tr s :: col')) eqn:E; [|discriminate].
     destruct (same_len l); [|discriminate]. inversion H; subst. simpl. apply map_opt_length in E. exact E.
 Qed.
 
@@ -439,16 +439,16 @@ Lemma collate_ctx_keys : forall c0 l' x, collate_ctx (c0 :: l') = Some x -> keys
 Proof. intros c0 l' x H. unfold collate_ctx in H. apply collate_ctx_keys_aux in H. exact H. Qed.
 
 (* ---- padding ---- *)
-Lemma max_len_ge : forall rows r, In r rows -> (length r <= max_len rows)%nat.
+Lemma max_len_ge : forall A (rows : list (list A)) r, In r rows -> (length r <= max_len rows)%nat.
 Proof.
-  induction rows as [|r0 rows IH]; intros r H; [contradiction|]. simpl. destruct H as [->|H].
+  intros A. induction rows as [|r0 rows IH]; intros r H; [contradiction|]. simpl. destruct H as [->|H].
   - lia.
   - specialize (IH r H). lia.
 Qed.
 
-Lemma max_len_attained : forall rows, rows <> [] -> exists r, In r rows /\ length r = max_len rows.
+Lemma max_len_attained : forall A (rows : list (list A)), rows <> [] -> exists r, In r rows /\ length r = max_len rows.
 Proof.
-  induction rows as [|r0 rows IH]; intros H; [congruence|]. simpl.
+  intros A. induction rows as [|r0 rows IH]; intros H; [congruence|]. simpl.
   destruct rows as [|r1 rows'].
   - exists r0. split; [left; reflexivity|]. simpl. lia.
   - destruct IH as [r [Hin Hr]]; [discriminate|].
@@ -457,19 +457,24 @@ Proof.
     + exists r0. split; [left; reflexivity|]. lia.
 Qed.
 
-Lemma pad_row_length : forall M r, (length r <= M)%nat -> length (pad_row M r) = M.
+Lemma pad_row_length : forall A (z : A) M r, (length r <= M)%nat -> length (pad_row z M r) = M.
 Proof. intros. unfold pad_row. rewrite app_length, repeat_length. lia. Qed.
 
 Lemma pad_col_padded : forall col out, pad_col col = Some out -> padded_field col out.
 Proof.
-  intros col out H. unfold pad_col in H. destruct col as [|[z|s] col']; [discriminate| |].
+  intros col out H. unfold pad_col in H. destruct col as [|[d z|d tr s] col']; [discriminate| |].
   - exact H.
-  - unfold padded_field. destruct (map_opt get_seq (FSeq s :: col')) as [rows|] eqn:E; [|discriminate].
+  - unfold padded_field. destruct (map_opt (get_seq d tr) (FSeq d tr s :: col')) as [rows|] eqn:E; [|discriminate].
     simpl in H. inversion H; subst. exists rows, (max_len rows).
     split; [reflexivity|]. split; [apply max_len_ge|]. split.
     + apply max_len_attained. intros ->. apply map_opt_length in E. discriminate E.
-    + split; [reflexivity|]. intros p Hp. apply in_map_iff in Hp. destruct Hp as [r [<- Hr]].
-      apply (pad_row_length (max_len rows) r). apply max_len_ge; assumption.
+    + split; [reflexivity|]. split.
+      * intros p Hp. apply in_map_iff in Hp. destruct Hp as [r [<- Hr]].
+        apply (pad_row_length _ (zero_elem tr) (max_len rows) r). apply max_len_ge; assumption.
+      * intros Hw p e Hp He. apply in_map_iff in Hp. destruct Hp as [r [<- Hr]].
+        apply in_app_or in He. destruct He as [He|He].
+        -- exact (Hw r e Hr He).
+        -- apply repeat_spec in He. subst e. apply repeat_length.
 Qed.
 
 Lemma map_opt_nth : forall A B (f : A -> option B) l r i a,
@@ -520,6 +525,289 @@ Proof.
   destruct (pad_items l) as [c|]; [|discriminate]. simpl in H. inversion H; subst. eauto.
 Qed.
 
+(* ---- the merge of the per-sample contexts itself ---- *)
+Lemma lookup_in : forall (c : sctx) k v, NoDup (map fst c) -> In (k, v) c -> lookup k c = Some v.
+Proof.
+  induction c as [|[k' v'] c IH]; intros k v Hnd Hin; [contradiction|]. simpl in *.
+  inversion Hnd as [|? ? Hnotin Hnd']; subst. destruct Hin as [E|Hin].
+  - inversion E; subst. rewrite Z.eqb_refl. reflexivity.
+  - destruct (k =? k') eqn:Ek.
+    + apply Z.eqb_eq in Ek. subst. exfalso. apply Hnotin. apply in_map_iff. exists (k', v). auto.
+    + apply IH; assumption.
+Qed.
+
+Lemma lookup_key : forall (c : sctx) k, In k (map fst c) -> exists v, lookup k c = Some v.
+Proof.
+  induction c as [|[k' v'] c IH]; intros k Hin; [contradiction|]. simpl in *.
+  destruct (k =? k') eqn:Ek; [eauto|]. destruct Hin as [E|Hin]; [subst; rewrite Z.eqb_refl in Ek; discriminate|].
+  apply IH; assumption.
+Qed.
+
+Lemma map_opt_total : forall A B (f : A -> option B) l,
+  (forall a, In a l -> exists b, f a = Some b) -> exists r, map_opt f l = Some r.
+Proof.
+  induction l as [|a l IH]; intros H; simpl; [eauto|].
+  destruct (H a (or_introl eq_refl)) as [b ->]. destruct IH as [r ->]; [intros; apply H; right; assumption|]. eauto.
+Qed.
+
+Lemma map_opt_In : forall A B (f : A -> option B) l r a,
+  map_opt f l = Some r -> In a l -> exists b, In b r /\ f a = Some b.
+Proof.
+  intros A B f l r a H Hin. apply In_nth_error in Hin. destruct Hin as [i Hi].
+  destruct (map_opt_nth _ _ f l r i a H Hi) as [b [Hb Hf]]. exists b. split; [|exact Hf].
+  eapply nth_error_In; exact Hb.
+Qed.
+
+(* samples with one common key list (dict keys: no duplicates): the merge succeeds, its keys are
+   exactly the samples' keys (none invented, none lost) and under every key it holds, in batch
+   order, exactly the value every sample had under that key *)
+Lemma collate_ctx_lossless_lem : forall c0 l,
+  (forall c, In c (c0 :: l) -> map fst c = map fst c0) -> NoDup (map fst c0) ->
+  exists x, collate_ctx (c0 :: l) = Some x /\ keys x = map fst c0 /\
+    forall i c k v, nth_error (c0 :: l) i = Some c -> In (k, v) c ->
+      exists vs, In (k, vs) x /\ nth_error vs i = Some v /\ length vs = length (c0 :: l).
+Proof.
+  intros c0 l Hu Hnd.
+  assert (Htot : exists x, collate_ctx (c0 :: l) = Some x).
+  { unfold collate_ctx. apply map_opt_total. intros [k v0] Hkv. cbn [fst].
+    destruct (map_opt_total _ _ (lookup k) (c0 :: l)) as [vs Hvs].
+    - intros c Hc. apply lookup_key. rewrite (Hu c Hc). apply in_map_iff. exists (k, v0). auto.
+    - rewrite Hvs. simpl. eauto. }
+  destruct Htot as [x Hx]. exists x. split; [exact Hx|]. split.
+  { apply collate_ctx_keys in Hx. exact Hx. }
+  intros i c k v Hi Hin.
+  assert (Hc : In c (c0 :: l)) by (eapply nth_error_In; exact Hi).
+  assert (Hk : In k (map fst c0)).
+  { rewrite <- (Hu c Hc). apply in_map_iff. exists (k, v). auto. }
+  apply in_map_iff in Hk. destruct Hk as [[k0 v0] [Ek Hkv0]]. simpl in Ek. subst k0.
+  unfold collate_ctx in Hx.
+  destruct (map_opt_In _ _ _ _ _ _ Hx Hkv0) as [b [Hb Hf]]. cbn [fst] in Hf.
+  destruct (map_opt (lookup k) (c0 :: l)) as [vs|] eqn:Evs; [|discriminate]. simpl in Hf. inversion Hf; subst b.
+  exists vs. split; [exact Hb|].
+  destruct (map_opt_nth _ _ _ _ _ i c Evs Hi) as [v' [Hv' Hl]].
+  rewrite (lookup_in c k v) in Hl.
+  - inversion Hl; subst. split; [exact Hv'|]. apply map_opt_length in Evs. exact Evs.
+  - rewrite (Hu c Hc). exact Hnd.
+  - exact Hin.
+Qed.
+
+(* whatever the samples look like: the merge never invents a key or a value *)
+Lemma collate_ctx_sound_lem : forall l x k vs,
+  collate_ctx l = Some x -> In (k, vs) x ->
+  length vs = length l /\
+  forall i v, nth_error vs i = Some v -> exists c, nth_error l i = Some c /\ lookup k c = Some v.
+Proof.
+  intros l x k vs Hx Hin. unfold collate_ctx in Hx. destruct l as [|c0 l]; [discriminate|].
+  apply In_nth_error in Hin. destruct Hin as [j Hj].
+  assert (Hlen : length x = length c0) by (eapply map_opt_length; exact Hx).
+  assert (Hjl : (j < length c0)%nat) by (rewrite <- Hlen; apply nth_error_Some; congruence).
+  destruct (nth_error c0 j) as [kv|] eqn:Ekv; [|apply nth_error_None in Ekv; lia].
+  destruct (map_opt_nth _ _ _ _ _ j kv Hx Ekv) as [b [Hb Hf]]. rewrite Hj in Hb. inversion Hb; subst b. clear Hb.
+  destruct (map_opt (lookup (fst kv)) (c0 :: l)) as [vs'|] eqn:Evs; [|discriminate]. simpl in Hf. inversion Hf; subst.
+  split; [eapply map_opt_length; exact Evs|].
+  intros i v Hv.
+  assert (Hil : (i < length (c0 :: l))%nat).
+  { rewrite <- (map_opt_length _ _ _ _ _ Evs). apply nth_error_Some. congruence. }
+  destruct (nth_error (c0 :: l) i) as [c|] eqn:Ec; [|apply nth_error_None in Ec; lia].
+  exists c. split; [reflexivity|].
+  destruct (map_opt_nth _ _ _ _ _ i c Evs Ec) as [v' [Hv' Hl]]. congruence.
+Qed.
+
+(* through the pipeline: members that leave the context alone, samples with one key list *)
+Lemma pipeline_ctx_lossless_lem : forall m ms s0 l t bo xo,
+  Forall keeps_ctx (m :: ms) ->
+  (forall s, In s (s0 :: l) -> map fst (snd s) = map fst (snd s0)) -> NoDup (map fst (snd s0)) ->
+  call_impl true (m :: ms) (BRaw (s0 :: l)) = (t, Ok bo xo) ->
+  exists x, xo = Some x /\ keys x = map fst (snd s0) /\
+    forall i s k v, nth_error (s0 :: l) i = Some s -> In (k, v) (snd s) ->
+      exists vs, In (k, vs) x /\ nth_error vs i = Some v /\ length vs = length (s0 :: l).
+Proof.
+  intros m ms s0 l t bo xo Hk Hu Hnd H.
+  pose proof (ctx_exact m ms (s0 :: l) t bo xo Hk H) as E. simpl in E.
+  destruct (collate_ctx_lossless_lem (snd s0) (map snd l)) as (x & Hx & Hkeys & Hall).
+  - intros c Hc. change (snd s0 :: map snd l) with (map snd (s0 :: l)) in Hc.
+    apply in_map_iff in Hc. destruct Hc as [s [<- Hs]]. apply Hu; exact Hs.
+  - exact Hnd.
+  - exists x. split; [rewrite E; exact Hx|]. split; [exact Hkeys|].
+    intros i s k v Hi Hin.
+    destruct (Hall i (snd s) k v) as (vs & H1 & H2 & H3).
+    + change (snd s0 :: map snd l) with (map snd (s0 :: l)). apply map_nth_error. exact Hi.
+    + exact Hin.
+    + exists vs. split; [exact H1|]. split; [exact H2|]. simpl in *. rewrite map_length in H3. exact H3.
+Qed.
+
+(* ---- the member collators of the correspondence run meet the contracts the theorems assume ---- *)
+Lemma set_key_keys : forall k v x, incl (keys x) (keys (set_key k v x)) /\ incl (keys (set_key k v x)) (k :: keys x).
+Proof.
+  intros k v x. induction x as [|[k' v'] x [IH1 IH2]]; simpl.
+  - split; [intros a []|apply incl_refl].
+  - destruct (k =? k') eqn:E; simpl.
+    + apply Z.eqb_eq in E. subst. split; [apply incl_refl|apply incl_tl, incl_refl].
+    + split.
+      * apply incl_cons; [left; reflexivity|]. apply incl_tl. exact IH1.
+      * apply incl_cons; [right; left; reflexivity|].
+        intros a Ha. destruct (IH2 a Ha) as [->|Ha']; [left; reflexivity|right; right; exact Ha'].
+Qed.
+
+Lemma add_keys_keys : forall ks x,
+  incl (keys x) (keys (fold_left (fun x' k => set_key k [] x') ks x)) /\
+  incl (keys (fold_left (fun x' k => set_key k [] x') ks x)) (keys x ++ ks).
+Proof.
+  induction ks as [|k ks IH]; intros x; simpl.
+  - split; [apply incl_refl|rewrite app_nil_r; apply incl_refl].
+  - destruct (IH (set_key k [] x)) as [H1 H2]. destruct (set_key_keys k [] x) as [S1 S2]. split.
+    + eapply incl_tran; eassumption.
+    + eapply incl_tran; [exact H2|]. intros a Ha. apply in_app_or in Ha. destruct Ha as [Ha|Ha].
+      * destruct (S2 a Ha) as [->|Ha']; [apply in_or_app; right; left; reflexivity|apply in_or_app; left; exact Ha'].
+      * apply in_or_app; right; right; exact Ha.
+Qed.
+
+Lemma member_of_extends_ctx : forall mk, extends_ctx (member_of mk).
+Proof.
+  intros [md k] b x b' x' H. unfold member_of in H. cbn [fst snd] in H. destruct k; cbn [mcollate] in H.
+  - inversion H; subst. apply incl_refl.
+  - destruct (mark_batch c b); inversion H; subst. apply incl_refl.
+  - inversion H; subst. apply (set_key_keys key [key] x).
+  - inversion H; subst. apply (add_keys_keys ks x).
+  - unfold pad_member in H. cbn [mcollate] in H. destruct (pad_collate b); inversion H; subst. apply incl_refl.
+Qed.
+
+(* what a member may add to the context is bounded by the keys it announces *)
+Lemma member_of_adds_only_announced : forall mk b x b' x',
+  mcollate (member_of mk) b x = Some (b', x') -> incl (keys x') (keys x ++ written_keys (snd mk)).
+Proof.
+  intros [md k] b x b' x' H. unfold member_of in H. cbn [fst snd] in *. destruct k; cbn [mcollate written_keys] in *.
+  - inversion H; subst. rewrite app_nil_r. apply incl_refl.
+  - destruct (mark_batch c b); inversion H; subst. rewrite app_nil_r. apply incl_refl.
+  - inversion H; subst. eapply incl_tran; [apply (set_key_keys key [key] x)|].
+    intros a [->|Ha]; apply in_or_app; [right; left; reflexivity|left; exact Ha].
+  - inversion H; subst. apply (add_keys_keys ks x).
+  - unfold pad_member in H. cbn [mcollate] in H. destruct (pad_collate b); inversion H; subst.
+    rewrite app_nil_r. apply incl_refl.
+Qed.
+
+Lemma member_of_keeps_ctx : forall mk, is_ctxw (snd mk) = false -> keeps_ctx (member_of mk).
+Proof.
+  intros [md k] Hk b x b' x' H. unfold member_of in H. cbn [fst snd] in *. destruct k; cbn [mcollate] in H; try discriminate Hk.
+  - inversion H; reflexivity.
+  - destruct (mark_batch c b); inversion H; reflexivity.
+  - unfold pad_member in H. cbn [mcollate] in H. destruct (pad_collate b); inversion H; reflexivity.
+Qed.
+
+Lemma on_head_length : forall A (f : A -> A) l, length (on_head f l) = length l.
+Proof. intros A f [|a l]; reflexivity. Qed.
+
+Lemma mark_batch_layout : forall n B c cc b b', mark_batch c b = Some b' -> has_layout n B cc b -> has_layout n B cc b'.
+Proof.
+  intros n B c cc b b' H Hl. destruct b; simpl in H; try discriminate; inversion H; subst; simpl in *.
+  - destruct Hl as [Hc [HB Hn]]. split; [exact Hc|]. split; [rewrite map_length; exact HB|].
+    apply Forall_map. eapply Forall_impl; [|exact Hn]. intros s Hs. simpl in Hs. rewrite on_head_length. exact Hs.
+  - destruct Hl as [Hc [Hn HB]]. split; [exact Hc|]. split; [rewrite on_head_length; exact Hn|].
+    destruct c0 as [|f fs]; [exact HB|]. simpl. inversion HB; subst. constructor; [|assumption].
+    destruct f; simpl in *; rewrite map_length; first [assumption|reflexivity].
+Qed.
+
+Lemma member_of_keeps_layout : forall n B mk, is_pad (snd mk) = false -> keeps_layout n B (member_of mk).
+Proof.
+  intros n B [md k] Hk b x b' x' cc H Hl. unfold member_of in H. cbn [fst snd] in *.
+  destruct k; cbn [mcollate] in H; try discriminate Hk.
+  - inversion H; subst. exact Hl.
+  - destruct (mark_batch c b) eqn:E; inversion H; subst. eapply mark_batch_layout; eassumption.
+  - inversion H; subst. exact Hl.
+  - inversion H; subst. exact Hl.
+Qed.
+
+(* ---- the boolean padding test of the correspondence run (Check.padded_fieldb) implies the spec ---- *)
+Lemma zlist_eqb_eq : forall a b, list_eqb Z.eqb a b = true -> a = b.
+Proof.
+  induction a as [|x a IH]; intros [|y b] H; simpl in H; try discriminate; [reflexivity|].
+  apply andb_prop in H. destruct H as [Hx H]. apply Z.eqb_eq in Hx. subst. f_equal. now apply IH.
+Qed.
+
+Lemma dtype_eqb_eq : forall a b, dtype_eqb a b = true -> a = b.
+Proof. intros [] []; simpl; intros H; try discriminate; reflexivity. Qed.
+
+Lemma shape_eqb_eq : forall a b, shape_eqb a b = true -> a = b.
+Proof.
+  induction a as [|x a IH]; intros [|y b] H; simpl in H; try discriminate; [reflexivity|].
+  apply andb_prop in H. destruct H as [Hx H]. apply Nat.eqb_eq in Hx. subst. f_equal. now apply IH.
+Qed.
+
+Lemma all_zero_repeat : forall e, all_zero e = true -> e = repeat 0 (length e).
+Proof.
+  induction e as [|z e IH]; intros H; simpl in *; [reflexivity|].
+  apply andb_prop in H. destruct H as [Hz H]. apply Z.eqb_eq in Hz. subst. f_equal. now apply IH.
+Qed.
+
+Lemma zero_step_eq : forall tr e, zero_step tr e = true -> e = repeat 0 (numel tr).
+Proof.
+  intros tr e H. unfold zero_step in H. apply andb_prop in H. destruct H as [Hl Hz].
+  apply Nat.eqb_eq in Hl. rewrite <- Hl. now apply all_zero_repeat.
+Qed.
+
+Lemma zero_steps_eq : forall tr z, forallb (zero_step tr) z = true -> z = repeat (repeat 0 (numel tr)) (length z).
+Proof.
+  induction z as [|e z IH]; intros H; simpl in *; [reflexivity|].
+  apply andb_prop in H. destruct H as [He H]. apply zero_step_eq in He. subst e. f_equal. now apply IH.
+Qed.
+
+Lemma zero_padding_eq : forall tr r p, is_zero_padding_of tr r p = true ->
+  (length r <= length p)%nat /\ p = r ++ repeat (repeat 0 (numel tr)) (length p - length r).
+Proof.
+  induction r as [|a r IH]; intros p H; simpl in H.
+  - split; [simpl; lia|]. simpl. rewrite Nat.sub_0_r. now apply zero_steps_eq.
+  - destruct p as [|b p]; [discriminate|]. apply andb_prop in H. destruct H as [Hab H].
+    apply zlist_eqb_eq in Hab. subst b. destruct (IH p H) as [Hl Hp]. split; [simpl; lia|].
+    simpl. f_equal. exact Hp.
+Qed.
+
+Lemma pairwise_padding_map : forall tr M rows prow,
+  pairwiseb (is_zero_padding_of tr) rows prow = true ->
+  forallb (fun p => Nat.eqb (length p) M) prow = true ->
+  prow = map (fun r => r ++ repeat (repeat 0 (numel tr)) (M - length r)) rows /\
+  (forall r, In r rows -> (length r <= M)%nat).
+Proof.
+  induction rows as [|r rows IH]; intros [|p prow] H HM; simpl in H; try discriminate.
+  - split; [reflexivity|intros r []].
+  - apply andb_prop in H. destruct H as [Hp H]. simpl in HM. apply andb_prop in HM. destruct HM as [HpM HM].
+    apply Nat.eqb_eq in HpM. destruct (zero_padding_eq tr r p Hp) as [Hl Hpe].
+    destruct (IH prow H HM) as [E Hle]. split.
+    + simpl. rewrite <- E. f_equal. rewrite <- HpM. exact Hpe.
+    + intros r' [<-|Hin]; [lia|now apply Hle].
+Qed.
+
+Lemma padded_fieldb_sound : forall col out, padded_fieldb col out = true -> padded_field col out.
+Proof.
+  intros col out H. unfold padded_fieldb in H. unfold padded_field.
+  destruct col as [|[d z|d tr s] col'].
+  - simpl in H. discriminate.
+  - destruct (collate_col (FScalar d z :: col')) as [o|] eqn:E; [|discriminate].
+    assert (o = out).
+    { assert (Ho : exists l, o = CVec d l).
+      { unfold collate_col in E. destruct (map_opt (get_scalar d) (FScalar d z :: col')) as [l|]; [|discriminate E].
+        simpl in E. inversion E. eauto. }
+      destruct Ho as [l1 ->]. destruct out as [d2 l2|d2 t2 r2]; simpl in H; try discriminate.
+      apply andb_prop in H. destruct H as [Hd Hl]. apply dtype_eqb_eq in Hd. apply zlist_eqb_eq in Hl. congruence. }
+    subst. reflexivity.
+  - destruct (map_opt (get_seq d tr) (FSeq d tr s :: col')) as [rows|] eqn:E; [|discriminate].
+    destruct out as [|d' tr' prow]; [discriminate|]. destruct prow as [|p0 prow]; [discriminate|].
+    apply andb_prop in H. destruct H as [H Hex].
+    apply andb_prop in H. destruct H as [H Hpw].
+    apply andb_prop in H. destruct H as [H Hlen].
+    apply andb_prop in H. destruct H as [Hd Htr].
+    apply dtype_eqb_eq in Hd. apply shape_eqb_eq in Htr. subst d' tr'.
+    set (M := length p0) in *.
+    destruct (pairwise_padding_map tr M rows (p0 :: prow) Hpw Hlen) as [Emap Hle].
+    exists rows, M. split; [reflexivity|]. split; [exact Hle|]. split.
+    { apply existsb_exists in Hex. destruct Hex as [r [Hin Hr]]. apply Nat.eqb_eq in Hr. exists r. split; assumption. }
+    split; [rewrite Emap; reflexivity|]. split.
+    + intros p Hp. apply in_map_iff in Hp. destruct Hp as [r [<- Hr]].
+      rewrite app_length, repeat_length. specialize (Hle r Hr). unfold elem in *. lia.
+    + intros Hw p e Hp He. apply in_map_iff in Hp. destruct Hp as [r [<- Hr]].
+      apply in_app_or in He. destruct He as [He|He]; [exact (Hw r e Hr He)|].
+      apply repeat_spec in He. subst e. apply repeat_length.
+Qed.
+
 (* the old code (before the two _call_impl patches) *)
 Definition id_member (md : cmode) : member := {| mmode := md; mcollate := fun b x => Some (b, x) |}.
 
@@ -564,5 +852,5 @@ Lemma pad_pipelines :
 Proof. split; [exact pad_pipeline_ctx|exact pad_pipeline_noctx]. Qed.
 
 Lemma pad_scalar_as_default :
-  forall z col out, pad_col (FScalar z :: col) = Some out -> collate_col (FScalar z :: col) = Some out.
-Proof. intros z col out H. exact H. Qed.
+  forall d z col out, pad_col (FScalar d z :: col) = Some out -> collate_col (FScalar d z :: col) = Some out.
+Proof. intros d z col out H. exact H. Qed.
